@@ -107,6 +107,11 @@ func (o *vectorSelector) Next(ctx context.Context) ([]model.StepVector, error) {
 
 	vectors := o.vectorPool.GetVectorBatch()
 	ts := o.currentStep
+	// One vector per step, also for steps (or selectors) without any sample.
+	for currStep, stepTs := 0, ts; currStep < o.numSteps && stepTs <= o.maxt; currStep++ {
+		vectors = append(vectors, o.vectorPool.GetStepVector(stepTs))
+		stepTs += o.step
+	}
 	for i := 0; i < len(o.scanners); i++ {
 		var (
 			series   = o.scanners[i]
